@@ -217,7 +217,36 @@ def c11(case, out):
     return None
 
 
-TABLE = {"C05": ("C05", C05_DEFS, c05), "C11": ("C11", C11_DEFS, c11)}
+# ------------------------------------------------------------------ C16
+C16_DEFS = """
+Inductive xr := XOk (id ty : Z) (pl : list N) (r : N) | XErr | XPanic | XFuel.
+Definition sh (r : fres ((Z * Z) * list N)) : xr :=
+  match r with FOk ((id, ty), pl) rest => XOk id ty pl (lenN rest) | FErr _ => XErr | FPanic _ => XPanic | FFuel => XFuel end.
+Definition xr_eqb (a b : xr) : bool :=
+  match a, b with
+  | XOk i t p r, XOk i' t' p' r' => Z.eqb i i' && Z.eqb t t' && leqb p p' && N.eqb r r'
+  | XErr, XErr | XPanic, XPanic | XFuel, XFuel => true
+  | _, _ => false end.
+Definition wr (id ty : Z) (pl img : list N) := leqb (rcon_write id ty pl) img.
+Definition rd (b : list N) (e : xr) := xr_eqb (sh (run_flat rcon_read b)) e.
+"""
+
+
+def c16(case, out):
+    c, o = case.split(), out.split()
+    if not c or not o or c[0] != o[0]:
+        return None
+    if c[0] == "wr" and len(c) == 4 and len(o) == 2:
+        return "wr %s %s %s %s" % (zlit(c[1]), zlit(c[2]), bytes_of_hex(c[3]), bytes_of_hex(o[1]))
+    if c[0] == "rd" and len(c) == 2:
+        if len(o) == 6 and o[1] == "ok":
+            return "rd %s (XOk %s %s %s %s)" % (bytes_of_hex(c[1]), zlit(o[2]), zlit(o[3]), bytes_of_hex(o[4]), nlit(o[5]))
+        if len(o) == 2 and o[1] in ("err", "panic", "fuel"):
+            return "rd %s %s" % (bytes_of_hex(c[1]), {"err": "XErr", "panic": "XPanic", "fuel": "XFuel"}[o[1]])
+    return None
+
+
+TABLE = {"C05": ("C05", C05_DEFS, c05), "C11": ("C11", C11_DEFS, c11), "C16": ("C16", C16_DEFS, c16)}
 
 
 def main():
